@@ -308,6 +308,40 @@ def astral_probe(ctx, idx, res):
     res.sig = ('astral', expr)
 
 
+# every ordered pair of tokens, glued and separated by a space, in five frames: the grammar recogniser of the reference says which strings
+# are expressions, the library must agree (and the values of those that are must agree as for every other case)
+PAIR_TOKENS = ['a', 'q:a', 'q:*', '*', '@a', '@*', '.', '..', '/', '//', '|', '+', '-', '=', '!=', '<', '<=', 'and', 'or', 'div', 'mod', '(', ')', '[', ']', ',', '1', '1.5', '.5', "'s'", '$v',
+               'text()', 'node()', 'count(', 'child::', 'self::', '::', ':', '$', '!', 'position()', 'last()', 'true()', 'q:f(', '@', 'comment()', "processing-instruction('p')", '(a)', '(1)', '[1]', 'a)', 'a]']
+# the last two frames never evaluate the pair: what is wrong with it must be noticed when the expression is compiled
+PAIR_FRAMES = ['%s', 'a %s', '%s a', '(%s)', 'a[%s]', 'true() or %s', 'false() and (%s)']
+PAIR_BLOCK = 64
+
+
+def pair_sweep_case(ctx, idx, res):
+    drv = ctx.drv(FLAVOUR)
+    xml = '<doc xmlns:q="urn:q"><a>1</a><q:a>2</q:a>t<!--c--><?p d?></doc>'
+    doc = refxml.parse(xml)
+    cnode = [c for c in doc.children if c.kind == refxml.ELEM][0]
+    h = drv.call(cmd='xdoc', xml=xml, xerces=0)['doc'].decode()
+    n = len(PAIR_TOKENS)
+    sigs = set()
+    res.evals = 0
+    try:
+        for k in range(idx * PAIR_BLOCK, min((idx + 1) * PAIR_BLOCK, n * n)):
+            t1, t2 = PAIR_TOKENS[k // n], PAIR_TOKENS[k % n]
+            for sep in ('', ' '):
+                for fr in PAIR_FRAMES:
+                    check_one(ctx, res, drv, h, doc, fr % (t1 + sep + t2), cnode, [cnode], {'q': 'urn:q'}, {'v': 1.0}, False, xml, sigs, set())
+                    res.evals += 1
+                    res.count('token_pair_strings')
+    finally:
+        try:
+            drv.call(cmd='xdocdel', doc=h)
+        except DriverDied:
+            pass
+    res.sig = ('pair-sweep', idx)
+
+
 def main():
     chk = Check('C02')
     chk.rule = ('typed random XPath expressions (13 axes, node tests, positional and boolean predicates, unions, filters, core functions, '
@@ -321,6 +355,7 @@ def main():
     n = 1500 if chk.tier == 'quick' else 50000
     chk.run_cases('c02', 'case', range(n))
     chk.run_cases('c02', 'astral_probe', range(len(ASTRAL)))
+    chk.run_cases('c02', 'pair_sweep_case', range((len(PAIR_TOKENS) ** 2 + PAIR_BLOCK - 1) // PAIR_BLOCK))
     chk.finish(min_nontrivial=200, required_stats=('valid_evaluated', 'invalid_rejected'))
 
 
